@@ -6,7 +6,7 @@ import XL.Model.Arr
 The expression type `Expr` is the parsed formula with references already resolved to rectangles
 (that resolution is C04's subject) and literals already converted (`Number.compile`,
 `String.compile`, `Error.compile`).  The function vocabulary is the one the workbook-level
-checks generate: the 15 operators, `SUM`, `MAX`, `MIN`, `IF`, `IFERROR`, `ISERROR`, `ABS`, `AND`,
+checks generate: the 15 operators, `SUM`, `MAX`, `MIN`, `IF`, `IFERROR`, `IFNA`, `IFS`, `ISERROR`, `ABS`, `AND`,
 `OR`, `NOT`, `COUNT`; every other function name raises `NotImplementedError`, which `CellWrapper.__call__` turns into
 `#NAME?` for the whole cell (`XL.Model.Book.formulaValue`).
 
@@ -194,6 +194,40 @@ def evalIferror (args : List (Res F)) : Option (Res F) :=
   | [v, d] => (map2 iferrorElem .blank .blank (blankTo (.num Num.zero) v.toArr) (blankTo (.num Num.zero) d.toArr)).map .arr
   | _ => some (errArr .value)
 
+/-- `xifna`: only `#N/A` selects the alternative -/
+def ifnaElem (v d : Val F) : Val F :=
+  match (match v with | .err .na => d | v => v) with
+  | .num x => convertNan x
+  | .blank => .num Num.zero
+  | r => r
+
+def evalIfna (args : List (Res F)) : Option (Res F) :=
+  match args with
+  | [v, d] => (map2 ifnaElem .blank .blank (blankTo (.num Num.zero) v.toArr) (blankTo (.num Num.zero) d.toArr)).map .arr
+  | _ => some (errArr .value)
+
+/-- `xifs` on one element tuple `c1, v1, c2, v2, …` (an odd tail is completed with `0`): the first
+condition that is an error is returned, a text condition is `#VALUE!`, the value of the first true
+condition is the result, none true is `#N/A` -/
+def ifsElem : List (Val F) → Val F
+  | [] => .err .na
+  | [c] =>
+    (match c with
+     | .err e => .err e
+     | .text _ => .err .value
+     | c => match truthy c with | some true => .num Num.zero | _ => .err .na)
+  | c :: v :: rest =>
+    match c with
+    | .err e => .err e
+    | .text _ => .err .value
+    | c => match truthy c with
+      | some true => (match v with | .num x => convertNan x | .blank => .num Num.zero | r => r)
+      | _ => ifsElem rest
+
+def evalIfs (args : List (Res F)) : Option (Res F) :=
+  if args.isEmpty then some (errArr .value)
+  else (mapN ifsElem .blank (args.map fun a => blankTo (.num Num.zero) a.toArr)).map .arr
+
 def evalIserror (args : List (Res F)) : Res F :=
   match args with
   | [v] => .arr (map1 (fun x => match x with | .err _ => .bool true | _ => .bool false) v.toArr)
@@ -260,6 +294,8 @@ def evalExpr (env : Env F) : Expr F → Except EvalErr (Res F)
       else if f = "COUNT" then .ok (evalCount vs)
       else if f = "IF" then (match evalIf vs with | some v => .ok v | none => .error .broadcast)
       else if f = "IFERROR" then (match evalIferror vs with | some v => .ok v | none => .error .broadcast)
+      else if f = "IFNA" then (match evalIfna vs with | some v => .ok v | none => .error .broadcast)
+      else if f = "IFS" then (match evalIfs vs with | some v => .ok v | none => .error .broadcast)
       else if f = "ISERROR" then .ok (evalIserror vs)
       else if f = "ABS" then (match vs with | [v] => .ok (.arr (map1 absElem (blankTo (.num Num.zero) v.toArr))) | _ => .ok (errArr .value))
       else if f = "AND" then .ok (evalAndOr true vs)
